@@ -165,6 +165,7 @@ class Driver:
                 finally:
                     st.mark_done("agent")
             self.a.t._target = run_and_report
+            self.a.t.daemon = True          # (a thread that does not end must not keep the checking process alive)
             self.a.start()
             st.wait_parked("agent")
         for d in self.dests:
